@@ -316,6 +316,45 @@ FRAG_VARS = ['g0', 'g1', 'l0', 'l1', 'p0', 'p1']
 
 
 CONST_CHOICES = [0, 0, 1, 2, 3, 7, 15, 16, 255, 256, 4095, 4096, 65535, 65534, 1000, 65536, 70000]
+FRAG_ARRAYS = [('a0', 8), ('a1', 3)]
+FRAG_ARRS = list(FRAG_ARRAYS)      # the arrays in scope of the procedure being generated: the global arrays and its array formals
+
+
+def frag_formals(rng):
+    """formals of the generated procedure f: value formals p0.. and array formals b0.. in any order; sets FRAG_ARRS;
+    returns (formals, names of value formals, the actuals main passes)"""
+    global FRAG_ARRS
+    nform = rng.choice([0, 1, 2, 2, 4])
+    narr = rng.choice([0, 0, 1, 1, 2])
+    forms = [('val', 'p%d' % k) for k in range(nform)] + [('array', 'b%d' % k) for k in range(narr)]
+    rng.shuffle(forms)
+    FRAG_ARRS = list(FRAG_ARRAYS) + [('b%d' % k, 3) for k in range(narr)]
+    acts = []
+    for q, f in enumerate(forms):
+        acts.append(('num', 5 + q) if f[0] == 'val' else ('var', rng.choice(['a0', 'a1'])))
+    return forms, nform, acts
+
+
+def has_array_actual(e):
+    """a call of ha / ka (an array name as the actual of an array formal) somewhere in e"""
+    if isinstance(e, tuple):
+        if e[0] == 'call' and e[1] in ('ha', 'ka'):
+            return True
+        return any(has_array_actual(x) for x in e[1:])
+    if isinstance(e, list):
+        return any(has_array_actual(x) for x in e)
+    return False
+
+
+FRAG_HELPERS = [
+    {'kind': 'proc', 'name': 'h', 'formals': [('val', 'a'), ('val', 'b')], 'locals': [], 'body': ('assign', 'g0', ('bin', '+', ('var', 'a'), ('var', 'b')))},
+    {'kind': 'proc', 'name': 'h0', 'formals': [], 'locals': [], 'body': ('skip',)},
+    {'kind': 'func', 'name': 'k', 'formals': [('val', 'a'), ('val', 'b')], 'locals': [], 'body': ('return', ('bin', '-', ('var', 'a'), ('var', 'b')))},
+    {'kind': 'func', 'name': 'k0', 'formals': [], 'locals': [], 'body': ('return', ('num', 3))},
+    # array formals: the actual is the address of the cells
+    {'kind': 'proc', 'name': 'ha', 'formals': [('array', 'b'), ('val', 'i')], 'locals': [],
+     'body': ('assignsub', 'b', ('var', 'i'), ('bin', '+', ('sub', 'b', ('num', 0)), ('var', 'i')))},
+    {'kind': 'func', 'name': 'ka', 'formals': [('val', 'i'), ('array', 'b')], 'locals': [], 'body': ('return', ('sub', 'b', ('var', 'i')))}]
 
 
 def frag_expr(rng, depth, want='int'):
@@ -344,7 +383,13 @@ def frag_expr(rng, depth, want='int'):
         r = rng.random()
         if r < 0.55:
             return ('var', rng.choice(FRAG_VARS))
+        if r < 0.65 and FRAG_ARRS:
+            a, n = rng.choice(FRAG_ARRS)
+            return ('sub', a, ('num', rng.randrange(n)))
         return const()
+    if r < 0.22 and FRAG_ARRS:
+        a, n = rng.choice(FRAG_ARRS)
+        return ('sub', a, frag_expr(rng, depth - 1))
     if r < 0.75:
         return ('bin', rng.choice(['+', '-']), frag_expr(rng, depth - 1), frag_expr(rng, depth - 1 if rng.random() < 0.45 else 0))
     if r < 0.85:
@@ -410,19 +455,26 @@ def frag_stmt(rng, depth):
     r = rng.random()
     if depth <= 0 or r < 0.35:
         r = rng.random()
+        if r < 0.5:
+            return ('assign', rng.choice(FRAG_VARS), frag_expr(rng, rng.randint(0, 3), rng.choice(['int', 'int', 'bool'])))
+        if r < 0.6 and FRAG_ARRS:
+            a, n = rng.choice(FRAG_ARRS)
+            return ('assignsub', a, frag_expr(rng, rng.randint(0, 2)), frag_expr(rng, rng.randint(0, 2), rng.choice(['int', 'int', 'bool'])))
         if r < 0.6:
             return ('assign', rng.choice(FRAG_VARS), frag_expr(rng, rng.randint(0, 3), rng.choice(['int', 'int', 'bool'])))
         if r < 0.7:
             e = [frag_expr(rng, rng.randint(0, 2)), rng.choice([('num', 0), ('var', 'g1'), frag_expr(rng, 1)])]
             return ('call', 'put', e) if rng.random() < 0.5 else ('sys', 1, e)
         if r < 0.78:
-            # a procedure call with call-free actuals
+            # a procedure call with call-free actuals (an array in scope as the actual of an array formal)
             return rng.choice([('call', 'h', [frag_expr(rng, rng.randint(0, 2)), frag_expr(rng, rng.randint(0, 2), rng.choice(['int', 'bool']))]),
-                               ('call', 'h0', [])])
+                               ('call', 'h0', []),
+                               ('call', 'ha', [('var', rng.choice(FRAG_ARRS)[0]), frag_expr(rng, rng.randint(0, 2))])])
         if r < 0.82:
             # a function call with call-free actuals as the whole right-hand side / the whole value of a return
             c = rng.choice([('call', 'k', [frag_expr(rng, rng.randint(0, 2)), frag_expr(rng, rng.randint(0, 2), rng.choice(['int', 'bool']))]),
-                            ('call', 'k0', [])])
+                            ('call', 'k0', []),
+                            ('call', 'ka', [frag_expr(rng, rng.randint(0, 2)), ('var', rng.choice(FRAG_ARRS)[0])])])
             return ('assign', rng.choice(FRAG_VARS), c) if rng.random() < 0.7 else ('return', c)
         if r < 0.87:
             return ('return', frag_expr(rng, rng.randint(0, 2), rng.choice(['int', 'bool'])))
@@ -448,9 +500,11 @@ def fragment_tie(ck, tools, scr, n):
     rng = ck.rng
     d = tempfile.mkdtemp(dir=scr)
     agree = outside = 0
+    narrf = narra = 0
     sample = None
     for i in range(n):
         kind = rng.choice(['func', 'proc'])
+        forms, nform, acts = frag_formals(rng)
         body = [frag_stmt(rng, rng.randint(0, 3)) for _ in range(rng.randint(1, 4))]
         if kind == 'func' or rng.random() < 0.3:
             body.append(('return', frag_expr(rng, rng.randint(0, 4), rng.choice(['int', 'int', 'bool']))))
@@ -459,18 +513,13 @@ def fragment_tie(ck, tools, scr, n):
         if nloc < 2:
             # l0 / l1 are then globals
             pass
-        glob = [('val', 'put', ('num', 1)), ('var', 'g0'), ('var', 'g1')] + [('var', 'l%d' % k) for k in range(nloc, 2)]
-        nform = rng.choice([0, 1, 2, 2, 4])
-        forms = [('val', 'p%d' % k) for k in range(nform)]
+        glob = [('val', 'put', ('num', 1)), ('var', 'g0'), ('array', 'a0', ('num', 8)), ('var', 'g1'), ('array', 'a1', ('num', 3))] + [('var', 'l%d' % k) for k in range(nloc, 2)]
         glob += [('var', 'p%d' % k) for k in range(nform, 2)]
-        call = ('call', 'f', [('num', 5 + k) for k in range(nform)])
+        call = ('call', 'f', acts)
         prog = {'globals': glob,
-                'procs': [{'kind': kind, 'name': 'f', 'formals': forms, 'locals': locs, 'body': ('seq', body) if len(body) > 1 or rng.random() < 0.5 else body[0]},
-                          {'kind': 'proc', 'name': 'h', 'formals': [('val', 'a'), ('val', 'b')], 'locals': [], 'body': ('assign', 'g0', ('bin', '+', ('var', 'a'), ('var', 'b')))},
-                          {'kind': 'proc', 'name': 'h0', 'formals': [], 'locals': [], 'body': ('skip',)},
-                          {'kind': 'func', 'name': 'k', 'formals': [('val', 'a'), ('val', 'b')], 'locals': [], 'body': ('return', ('bin', '-', ('var', 'a'), ('var', 'b')))},
-                          {'kind': 'func', 'name': 'k0', 'formals': [], 'locals': [], 'body': ('return', ('num', 3))},
-                          {'kind': 'proc', 'name': 'main', 'formals': [], 'locals': [],
+                'procs': [{'kind': kind, 'name': 'f', 'formals': forms, 'locals': locs, 'body': ('seq', body) if len(body) > 1 or rng.random() < 0.5 else body[0]}] +
+                         FRAG_HELPERS +
+                         [{'kind': 'proc', 'name': 'main', 'formals': [], 'locals': [],
                            'body': ('seq', [('assign', 'g0', ('num', 1)), ('assign', 'g1', ('num', 2)),
                                             ('sys', 0, [call]) if kind == 'func' else call])}]}
         src = xcommon.to_x(prog)
@@ -493,8 +542,8 @@ def fragment_tie(ck, tools, scr, n):
         except (ValueError, StopIteration):
             pass
         # addresses of the global variables: the DATA words after the stack pointer, in declaration order
-        gnames = [g[1] for g in glob if g[0] == 'var']
-        gmap = ' '.join('%s=%d' % (nm, 2 + q) for q, nm in enumerate(gnames))
+        gdecl = [g for g in glob if g[0] in ('var', 'array')]
+        gmap = ' '.join(('%s=%d' if g[0] == 'var' else '@%s=%d') % (g[1], 2 + q) for q, g in enumerate(gdecl))
         poolmap = []
         lines_ = text.split('\n')
         for q, ln in enumerate(lines_):
@@ -526,9 +575,12 @@ def fragment_tie(ck, tools, scr, n):
                 break
         else:
             agree += 1
+            narrf += any(f[0] == 'array' for f in forms)
+            narra += has_array_actual(body)
             if sample is None or len(src) < len(sample['x_source']):
                 sample = {'x_source': src.decode('latin-1'), 'model_and_xcmp': mo}
-    ck.cov['fragment_model_tie'] = {'procedures': n, 'in_fragment_identical_code': agree, 'outside_fragment': outside}
+    ck.cov['fragment_model_tie'] = {'procedures': n, 'in_fragment_identical_code': agree, 'outside_fragment': outside,
+                                    'identical_with_array_formals': narrf, 'identical_with_array_actuals': narra}
     if sample:
         ck.sample(sample)
     shutil.rmtree(d, ignore_errors=True)
@@ -542,7 +594,7 @@ def aout_words(path):
     return list(struct.unpack('<%dI' % n, dta[4:4 + 4 * n]))
 
 
-def proc_og(body, funcs=('k', 'k0')):
+def proc_og(body, funcs=('k', 'k0', 'ka')):
     """outgoing words a procedure body needs: link [+ result] + actuals of its widest call; 3 for exit, 4 for put"""
     og = 0
     def ex(e):
@@ -572,27 +624,24 @@ def program_tie(ck, tools, scr, n):
     global CONST_CHOICES
     rng = ck.rng
     d = tempfile.mkdtemp(dir=scr)
-    saved, CONST_CHOICES = CONST_CHOICES, [0, 0, 1, 2, 3, 7, 15, 16, 255, 256, 4095, 4096, 65535, 65534, 1000] if rng.random() < 2 else CONST_CHOICES
-    stats = {'programs': 0, 'byte_identical_to_xcmp': 0, 'differing': 0, 'model_none_opt': 0,
-             'validated_image_ok': 0, 'validated_image_none': 0, 'isa_runs_compared': 0, 'lowered_and_optimised_image_show_the_same': 0}
+    saved = CONST_CHOICES
+    stats = {'programs': 0, 'programs_with_pool_constants': 0, 'byte_identical_to_xcmp': 0, 'differing': 0, 'model_none_opt': 0,
+             'validated_image_ok': 0, 'validated_image_none': 0, 'isa_runs_compared': 0, 'lowered_and_optimised_image_show_the_same': 0,
+             'byte_identical_with_array_formals': 0, 'byte_identical_with_array_actuals': 0,
+             'well_defined': 0, 'well_defined_lowered_image_shows_the_spec': 0, 'ill_defined': 0, 'ill_defined_images_differ': 0}
     reasons = {}
     for i in range(n):
         kind = rng.choice(['func', 'proc', 'proc'])
+        forms, nform, acts = frag_formals(rng)
         body = [frag_stmt(rng, rng.randint(0, 3)) for _ in range(rng.randint(1, 4))]
         if kind == 'func':
             body.append(('return', frag_expr(rng, rng.randint(0, 3), rng.choice(['int', 'int', 'bool']))))
         nloc = rng.choice([0, 1, 2, 2, 3])
         locs = [('var', 'l0'), ('var', 'l1'), ('var', 'l2')][:nloc]
-        glob = [('val', 'put', ('num', 1)), ('var', 'g0'), ('var', 'g1')] + [('var', 'l%d' % k) for k in range(nloc, 2)]
-        nform = rng.choice([0, 1, 2, 2, 4])
-        forms = [('val', 'p%d' % k) for k in range(nform)]
+        glob = [('val', 'put', ('num', 1)), ('var', 'g0'), ('array', 'a0', ('num', 8)), ('var', 'g1'), ('array', 'a1', ('num', 3))] + [('var', 'l%d' % k) for k in range(nloc, 2)]
         glob += [('var', 'p%d' % k) for k in range(nform, 2)]
-        call = ('call', 'f', [('num', 5 + k) for k in range(nform)])
-        procs = [{'kind': kind, 'name': 'f', 'formals': forms, 'locals': locs, 'body': ('seq', body)},
-                 {'kind': 'proc', 'name': 'h', 'formals': [('val', 'a'), ('val', 'b')], 'locals': [], 'body': ('assign', 'g0', ('bin', '+', ('var', 'a'), ('var', 'b')))},
-                 {'kind': 'proc', 'name': 'h0', 'formals': [], 'locals': [], 'body': ('skip',)},
-                 {'kind': 'func', 'name': 'k', 'formals': [('val', 'a'), ('val', 'b')], 'locals': [], 'body': ('return', ('bin', '-', ('var', 'a'), ('var', 'b')))},
-                 {'kind': 'func', 'name': 'k0', 'formals': [], 'locals': [], 'body': ('return', ('num', 3))},
+        call = ('call', 'f', acts)
+        procs = [{'kind': kind, 'name': 'f', 'formals': forms, 'locals': locs, 'body': ('seq', body)}] + FRAG_HELPERS + [
                  {'kind': 'proc', 'name': 'main', 'formals': [], 'locals': [],
                   'body': ('seq', [('assign', 'g0', ('num', 1)), ('assign', 'g1', ('num', 2)),
                                    ('assign', 'g1', call) if kind == 'func' else call,
@@ -615,7 +664,17 @@ def program_tie(ck, tools, scr, n):
             size = -ins[k + 3][1] if ins[k + 1:k + 3] == [('LDBM', 1), ('STAI', 0)] and ins[k + 3][0] == 'LDAC' and ins[k + 4] == ('ADD', None) and ins[k + 5] == ('STAM', 1) and ins[k + 3][1] < 0 else 0
             og = proc_og(pr['body'], [q['name'] for q in procs if q['kind'] == 'func'])
             frames.append('%s %d %d %d' % (pr['name'], size, size - og, og))
-        fr = ('\n'.join(frames) + '\n').encode()
+        poolv = []
+        lines_ = out.decode('latin-1').split('\n')
+        for q, ln in enumerate(lines_):
+            if re.match(r'^(?:0x)?[0-9a-fA-F]+\s+_const\d+\s', ln) and q + 1 < len(lines_):
+                m2 = re.match(r'^(?:0x)?[0-9a-fA-F]+\s+DATA\s+(-?\d+)', lines_[q + 1])
+                if m2:
+                    v = int(m2.group(1))
+                    poolv.append(v - (1 << 32) if v >= (1 << 31) else v)
+        if poolv:
+            stats['programs_with_pool_constants'] += 1
+        fr = ('\n'.join(frames) + '\n' + 'pool ' + ' '.join(str(v) for v in poolv) + '\n').encode()
         rc, out1, err = xcommon._run([tools.hv, 'xmc', 'p.sx', '1'], d, fr, 60)
         mo = out1.decode().strip()
         if rc != 0 or not mo or mo == 'front-error':
@@ -623,12 +682,14 @@ def program_tie(ck, tools, scr, n):
             break
         if mo == 'none':
             stats['model_none_opt'] += 1
-            why = 'outside the model: a constant that needs the constant pool (folded constants included)'
+            why = 'outside the model'
             reasons[why] = reasons.get(why, 0) + 1
             continue
         model = [int(x) for x in mo.split()]
         if model == real:
             stats['byte_identical_to_xcmp'] += 1
+            stats['byte_identical_with_array_formals'] += any(f[0] == 'array' for f in forms)
+            stats['byte_identical_with_array_actuals'] += has_array_actual(body)
         else:
             stats['differing'] += 1
             why = 'length %d vs %d' % (len(model), len(real)) if len(model) != len(real) else 'same length, words differ'
@@ -658,8 +719,27 @@ def program_tie(ck, tools, scr, n):
             stats['isa_runs_compared'] += 1
             if same:
                 stats['lowered_and_optimised_image_show_the_same'] += 1
+            # what XSem says: for a well-defined program both images must show exactly that (for the lowered image this is
+            # the statement of C01_program_partial); an ill-defined program (a subscript out of range stores anywhere, e.g. to
+            # a link word, and the two images have different code addresses) may differ between the images: counted only
+            spec, e = xcommon.run_xsem(tools.hv, os.path.join(d, 'p.sx'), [[]], STEPS, DEPTH)
+            if spec is None:
+                ck.broken.append('program tie: the XSem runner failed: %s' % e)
+                break
+            sp_ = spec[0]
+            if sp_['kind'] == 'behaviour':
+                stats['well_defined'] += 1
+                for nm, m in (('the validated lowered image of model_compile', rl[0]), ('the binary of xcmp', ra[0])):
+                    if m['end'] != 'exit' or m['code'] != sp_['exit'] or m['out'] != sp_['out'] or m['consumed'] != sp_['consumed']:
+                        ck.broken.append('%s does not show the behaviour XSem gives on %r: %r, spec %r' % (nm, src.decode('latin-1'), m, sp_))
+                    elif nm.startswith('the validated'):
+                        stats['well_defined_lowered_image_shows_the_spec'] += 1
+                if len(ck.broken) > 3:
+                    break
             else:
-                ck.broken.append('the lowered image of model_compile and the binary of xcmp show different behaviour on %r: %r vs %r' % (src.decode('latin-1'), rl[0], ra[0]))
+                stats['ill_defined'] += 1
+                if not same:
+                    stats['ill_defined_images_differ'] += 1
     CONST_CHOICES = saved
     ck.cov['program_model_tie'] = dict(stats, reasons_not_identical=reasons)
     shutil.rmtree(d, ignore_errors=True)
@@ -774,23 +854,28 @@ def main():
                       'proved: a Behaviour does not change when the recursion fuel grows (run_fuel_monotone); NOT proved, assumed: nor when the statement budget or the depth bound grows' % (STEPS, DEPTH),
                       'order-open evaluation is excluded conservatively by footprints (XSem.v header); ill-defined programs are counted per reason and dropped',
                       'file streams (>= 256) are not generated; console only',
-                      'proved part (Properties_C01.v): for expressions (literals, globals, locals, value formals, + - = < ~ and or, spills) and '
-                      'statements (skip stop return if while sequence assignment exit put) of the form the code generator reads (after XConstProp.front), '
+                      'proved part (Properties_C01.v): for expressions (literals, globals, locals, value formals, + - = < ~ and or, spills, subscripts a[e] of global arrays '
+                      'and of array formals with constant or computed index) and statements (skip stop return if while sequence assignment, assignment to an array element a[e1] := e2, exit put) '
+                      'of the form the code generator reads (after XConstProp.front), '
                       'the code of the model cg/cs run on Isa.run shows the behaviour XSem gives (C01_expr_fragment_partial, C01_stmt_fragment_partial); '
                       'and for procedure-call statements, and function calls as the whole right-hand side of an assignment or the whole value of a return, '
-                      'with call-free actuals, to procedures/functions with value formals and var locals that hide no global '
+                      'with call-free actuals, to procedures/functions with value and array formals (an array name in scope -- a global array or an array formal -- as the actual, '
+                      'passed by the address of its cells) and var locals that hide no global '
                       '(prologue, body, epilogue before the peepholes; recursion included; stack budget from XSem\'s depth bound) the same holds by a '
                       'program-level induction (C01_calls_partial, C01_call_ok_partial), shown non-vacuous on a recursive demo program whose every hypothesis '
                       'is discharged and whose stated code is re-checked here against xcmp -S (C01_calls_nonvacuous_hyps/_run, coq_demo_listing_tie); '
                       'and END TO END for whole programs of the fragment: XSem.run p inp = Behaviour b and model_compile frames false p = Some img imply that the ISA booted on img '
                       'shows b (C01_program_partial = C01_full for the model compile function; model_compile = the model code generator + the assembler model + a built-in computable '
-                      'validation of the image; its input is the output of XConstProp.front; frame numbers are a parameter read off xcmp\'s listing); '
+                      'validation of the image; its input is the output of XConstProp.front; frame numbers and the order of the constant pool are parameters read off xcmp\'s listing); '
                       'the model is tied to the real xcmp on generated procedures (fragment_model_tie: identical code up to label names, incl. prologue, epilogue and peepholes) '
                       'and on generated whole programs (program_model_tie: the image words of model_compile with the peephole pass are compared with the real binary; the validated '
-                      'lowered image of the same program must exist, and both images are run on the extracted ISA and must show the same); '
+                      'lowered image of the same program must exist, and both images are run on the extracted ISA: where XSem says Behaviour both must show exactly it; '
+                      'where XSem says the program is ill-defined nothing is claimed and a difference between the two images is only counted); '
                       'the three peephole rules are proved to preserve the effect of the block they rewrite (C01_peephole_rule1/2/3_partial) and to be all the pass applies (C01_peephole_rewrites); '
-                      'NOT proved: calls inside operands and actuals, array/proc formals, shadowing of globals, get, arrays, strings, the peephole pass, '
-                      'the constant pool, that XConstProp.front preserves behaviour for whole programs, and that the peephole pass does (the proved image is the lowered one) '
+                      'global arrays are laid out by model_compile as xcmp does (cells at the top of memory, the name\'s data word holds their address) and, like array formals, are part of '
+                      'the end-to-end theorem (the demo passes a global array to a recursive procedure through an array formal); '
+                      'NOT proved: calls inside operands and actuals, proc/func formals, string literals as array actuals, local arrays (XSem rejects them), shadowing of globals, get, strings, '
+                      'that XConstProp.front preserves behaviour for whole programs, and that the peephole pass does for whole images (the proved image is the lowered one) '
                       '-- decided per program by this check']
     if os.path.exists(os.path.join(vlib.COQ, 'Properties_%s.v' % PID)):
         ok = ck.proofs()
